@@ -102,6 +102,8 @@ func main() {
 		cmdReplay(os.Args[2:])
 	case "digest":
 		cmdDigest(os.Args[2:])
+	case "racereport":
+		cmdRaceReport(os.Args[2:])
 	default:
 		fmt.Println("unknown command")
 		os.Exit(2)
